@@ -397,6 +397,9 @@ func VH_Derived() {
 			nums = append(nums, n)
 		}
 		sort.Ints(nums)
+		if vParam("sample", 0) != 0 && len(nums) > 3 {
+			nums = []int{nums[0], nums[len(nums)/2], nums[len(nums)-1]}
+		}
 		text := "arch=" + strconv.FormatUint(uint64(code), 16) + " syscall="
 		var wantSys string
 		if len(nums) > 0 && vChoose("known", 2) == 0 {
